@@ -56,6 +56,29 @@ def _cols(d):
     return out
 
 
+def extra_templates():
+    """expression forms kept out of the shared corpus (the other checks' seeded samples stay what they are): the bracketed TAILS of
+    a function call - aggregate FILTER (WHERE ...), ordered-set WITHIN GROUP (ORDER BY ...) - next to its arguments and a window"""
+    from checks.corpus import Alloc, F_join_on, inner_simple, stmt_of
+    from checks.gen import Col, Func, Item, J, Lit, Sel, Tab
+
+    out = []
+    forms = {
+        "agg_filter": lambda: [Item(Func("sum", [Col(0, "ca")], tail=("filter", Col(0, "cb"))), alias="cx"), Item(Col(1, "cc"))],
+        "agg_filter_other_rel": lambda: [Item(Func("sum", [Col(0, "ca")], tail=("filter", Col(1, "cb"))), alias="cx")],
+        "nested_in_filter": lambda: [Item(Func("coalesce", [Func("max", [Col(0, "ca")], tail=("filter", Col(1, "cb"))), Col(1, "cc")]), alias="cx")],
+    }
+    for name, mk in forms.items():
+        a = Alloc()
+        frm, _ = F_join_on(a, inner_simple)
+        out.append(("extra/expr/%s/join_on" % name, "ansi", stmt_of("insert", a, Sel(mk(), frm))))
+    a = Alloc()
+    frm, _ = F_join_on(a, inner_simple)
+    out.append(("extra/expr/within_group/join_on", "postgres",
+                stmt_of("insert", a, Sel([Item(Func("percentile_cont", [Lit("0.5")], tail=("within", Col(0, "ca"))), alias="cx"), Item(Col(1, "cb"))], frm))))
+    return out
+
+
 def obligations(tier, seed):
     import random
 
@@ -90,6 +113,9 @@ def obligations(tier, seed):
             # sized by wall time: every base instance, and a seeded share of the additional length / dialect instances
             extras = obs[_nbase:]
             obs = obs[:_nbase] + rnd.sample(extras, max(0, 1100 - _nbase))
+    for k, d, st in extra_templates():
+        obs.append(PairOb(k, st, d, "tabs", 4, seed))
+        obs.append(PairOb(k, st, d, "cols", 4, seed))
     # every base-table name double-quoted (case kept): un-aliased quoted tables used as column qualifiers
     from lx.tree import PLACEHOLDER as _PH
 
